@@ -429,7 +429,11 @@ func runCheck(repo, verifDir string, opts CheckOpts, overlay map[string][]byte, 
 				continue
 			}
 			// replay
-			rr := tryReplay(P, fr, s, verifDir)
+			var rr *ReplayResult
+			if overlay == nil {
+				// (with an in-memory overlay the real tree does not contain the change: nothing to replay against)
+				rr = tryReplay(P, fr, s, verifDir)
+			}
 			s.Replay = rr
 			rec := map[string]any{"property": prop, "obligation": s.Site, "function": fr.Key, "kind": s.Kind, "what": s.Descr, "pos": s.Pos,
 				"solver_status": s.FailStat, "solver_output": s.SolverOut, "model": s.Model, "path": s.FailPath, "replay": rr}
